@@ -667,3 +667,5 @@ PROPS["C17"].setdefault("extra_scope_files", []).append("mptcore/event/dispatch_
 PROPS["C01"].setdefault("extra_scope_files", []).append("mpt++/array.cpp")      # encode_array: the C++ buffer management around mpt_array_push()
 PROPS["C20"]["rules"].append({"run": rules_layout.run_typeiddest, "floor": 12})
 PROPS["C20"]["explanation"] += " TYPEIDDEST: where the type id that reaches src->convert(src, type, dest) comes from mpt_<kind>_typeid() (nearest dominating assignment), dest points to a struct mpt_<kind>, for mpt_<kind>_pointer_typeid() to a pointer to one."
+PROPS["C20"]["rules"].append({"run": rules_layout.run_typeidname, "floor": 5})
+PROPS["C20"]["explanation"] += " TYPEIDNAME: each specialisation type_properties<K>::id / <K *>::id of the layout classes returns mpt_<K>_typeid() / mpt_<K>_pointer_typeid()."
